@@ -1434,6 +1434,9 @@ func (s *State) checkASAInterfaces() error {
 				// If some ACL or crypto map is bound to this unmanaged
 				// interface, these commands must not accidently be deleted.
 				s.markNeeded(aIntf2cmd[name])
+				// Leave these commands unchanged on device,
+				// must not compare them with commands from Netspoc.
+				s.removeAnchors(aIntf2cmd[name])
 
 				if !shut {
 					errlog.Warning(
@@ -1453,6 +1456,24 @@ func (s *State) checkASAInterfaces() error {
 		}
 	}
 	return nil
+}
+
+// Remove commands bound to unmanaged interface from list of anchors.
+func (s *State) removeAnchors(l []*cmd) {
+	for _, prefix := range []string{"access-group", "crypto map interface"} {
+		al, found := s.a.lookup[prefix][""]
+		if !found {
+			continue
+		}
+		al = slices.DeleteFunc(slices.Clone(al), func(c *cmd) bool {
+			return slices.Contains(l, c)
+		})
+		if len(al) == 0 {
+			delete(s.a.lookup[prefix], "")
+		} else {
+			s.a.lookup[prefix][""] = al
+		}
+	}
 }
 
 func (s *State) checkIOSInterfaces() error {
